@@ -27,7 +27,8 @@
  *   cmlhs <seed> <bls> <S> <L> <datahex> <mut>...    mklhs <seed> <S> <L> <datahex> <mut>...
  *
  * A mutation token is a comma separated list of operations applied to a fresh copy of the honest input:
- *   honest | m=<hex> | id=<hex> | <comp>:<op>[:<arg>] | swap:<A>:<B> | cp:<A>:<B> | scheme specific (see each scheme)
+ *   honest | m=<hex> | id=<hex> | <comp>:<op>[:<arg>] | swap:<A>:<B> | cp:<A>:<B> | scheme specific (see each scheme;
+ *   CL: forge:b forge:B<i> forge:A<i> = forgeries made with the secret key that violate exactly one verification equation)
  *   integer components:  bit:<k>  +n  n-  =0  =n  =1  neg  -n  +nshl:<k> (x + n 2^k)
  *   curve points (G1 / E): fx:<k> fy:<k> inf neg dbl other (a point of y^2 = x^3 + ax + b + 1) gen
  *   G2 points: fx:<k> fy:<k> inf neg dbl +T (a twist point outside G2 is added) gen
@@ -491,7 +492,7 @@ static void do_sokor(void) {
 static bn_t MSK, MSK2, USK, USK2, Z, HH;
 static ec_t MPK, MPK2, UPK, UPK2, RR;
 static void do_vbnn(void) {
-	int id = atoi(vh_tok[1]), err, ret = -1, i;
+	int id = atoi(vh_tok[1]), err, ret = -1, i, crash = 0, code2 = 0;
 	if (!set_curve(id)) { bad_curve(id); return; }
 	reseed(vh_tok[2]);
 	idl0 = tok_bytes(vh_tok[3], id0);
@@ -517,12 +518,44 @@ static void do_vbnn(void) {
 			/* a signature of the same message made with another user's key of the same authority, submitted under id */
 			cp_vbnn_sig(RR, Z, HH, id0, idl0, msg0, (int)len0, USK2, UPK2);
 		} else apply_mut(vh_tok[i], NULL);
-		ret = -1; vh_code();
-		VH_TRY(err, ret = cp_vbnn_ver(RR, Z, HH, idb, idl, msg, (int)len, MPK));
+		ret = -1; vh_code(); crash = 0;
+		if (ec_is_infty(RR)) {
+			/* the verifier sizes its hash buffer with the encoding of R (1 byte for the identity) and writes the encoding of
+			 * Z behind it: an abnormal end must become a field of THIS event, so the call runs in a child */
+			int fd[2], st = 0, res[3] = { -1, 0, 0 };
+			pid_t pid;
+			fflush(vh_out);
+			if (pipe(fd) != 0) exit(2);
+			pid = fork();
+			if (pid < 0) exit(2);
+			if (pid == 0) {
+				int e2, r2 = -1;
+				signal(SIGSEGV, SIG_DFL); signal(SIGBUS, SIG_DFL); signal(SIGABRT, SIG_DFL); signal(SIGILL, SIG_DFL); signal(SIGFPE, SIG_DFL);
+				close(fd[0]);
+				VH_TRY(e2, r2 = cp_vbnn_ver(RR, Z, HH, idb, idl, msg, (int)len, MPK));
+				res[0] = r2; res[1] = e2; res[2] = vh_code();
+				if (write(fd[1], res, sizeof(res)) < 0) {}
+				_exit(0);
+			}
+			close(fd[1]);
+			if (read(fd[0], res, sizeof(res)) != (ssize_t)sizeof(res)) { res[0] = -1; res[1] = 0; res[2] = 0; }
+			close(fd[0]);
+			waitpid(pid, &st, 0);
+			if (WIFSIGNALED(st)) crash = WTERMSIG(st);
+			else if (!WIFEXITED(st) || WEXITSTATUS(st) != 0) crash = 255;
+			ret = res[0]; err = res[1]; code2 = res[2];
+		} else {
+			VH_TRY(err, ret = cp_vbnn_ver(RR, Z, HH, idb, idl, msg, (int)len, MPK));
+			code2 = vh_code();
+		}
 		vh_begin("vbnn_ver"); curve_hdr();
+		vh_int("crash", crash);
 		vh_ep("R", RR); vh_bn("z", Z); vh_bn("hh", HH); vh_ep("mpk", MPK);
 		vh_bytes("id", idb, idl); vh_bytes("msg", msg, len);
-		ver_tail(vh_tok[i], ret, err); vh_end();
+		vh_str("mut", vh_tok[i]);
+		vh_int("honest", strcmp(vh_tok[i], "honest") == 0);
+		vh_int("ret", ret); vh_int("err", err); vh_int("code", code2);
+		vh_end();
 	}
 }
 
@@ -784,6 +817,52 @@ static void blk_log(void) {
 	fputc(']', vh_out);
 }
 
+/* Forgeries that violate exactly ONE of the verification equations (built with the secret key; input construction only):
+ *   forge:b    b' = b + G1, c' = c + [x m]G1            only e(a, Y) = e(b', g) fails
+ *   forge:B<i> B' = B + G1, c' = c + [x r]G1            only e(A, Y) = e(B', g) fails       (r = the scalar that multiplies B in c)
+ *   forge:A<i> A' = A + G1, B' = B + [y]G1, c' = c + [x r y]G1     only e(a, Z) = e(A', g) fails */
+static g1_t FP1;
+static void msg_int(bn_t m, const uint8_t *b, size_t l) {
+	if (l == 0) bn_zero(m); else bn_read_bin(m, b, l);
+	bn_mod(m, m, N);
+}
+static void add_gen_mul(g1_t p, const bn_t k) {       /* p <- p + [k]G1 */
+	g1_mul_gen(FP1, k);
+	g1_add(p, p, FP1);
+	g1_norm(p, p);
+}
+static void forge_b(g1_st *b, g1_st *c, const bn_t x, const bn_t m) {
+	bn_set_dig(U, 1); add_gen_mul(b, U);
+	bn_mul(U, x, m); bn_mod(U, U, N); add_gen_mul(c, U);
+}
+static void forge_A(g1_st *A, g1_st *B, g1_st *c, const bn_t x, const bn_t y, const bn_t r) {
+	bn_set_dig(U, 1); add_gen_mul(A, U);
+	add_gen_mul(B, y);
+	bn_mul(U, x, r); bn_mod(U, U, N); bn_mul(U, U, y); bn_mod(U, U, N); add_gen_mul(c, U);
+}
+static int cls_hook(const char *op) {
+	if (!strcmp(op, "forge:b")) { msg_int(V, msg, len); forge_b(SB, SC, KR, V); return 1; }
+	return 0;
+}
+static int cli_hook(const char *op) {
+	if (!strcmp(op, "forge:b")) { msg_int(V, msg, len); forge_b(SB, SC, KT, V); return 1; }
+	if (!strcmp(op, "forge:B")) { bn_mod(V, RB, N); forge_b(SBB[0], SC, KT, V); return 1; }
+	if (!strcmp(op, "forge:A")) { bn_mod(V, RB, N); forge_A(SAA[0], SBB[0], SC, KT, KU, V); return 1; }
+	return 0;
+}
+static int blk_hook(const char *op);
+static int clb_hook(const char *op) {
+	if (!strcmp(op, "forge:b")) { msg_int(V, bmsg[0], blen[0]); forge_b(SB, SC, KT, V); return 1; }
+	if (!strncmp(op, "forge:B", 7) || !strncmp(op, "forge:A", 7)) {
+		size_t i = (size_t)(op[7] - '0');
+		if (op[7] < '0' || op[7] > '9' || i + 1 >= nblk) return 0;
+		msg_int(V, bmsg[i + 1], blen[i + 1]);
+		if (op[6] == 'B') forge_b(SBB[i], SC, KT, V); else forge_A(SAA[i], SBB[i], SC, KT, KU, V);
+		return 1;
+	}
+	return blk_hook(op);
+}
+
 /* ---- Camenisch-Lysyanskaya, scheme A ---- */
 static void do_cls(void) {
 	int err, ret = -1, i;
@@ -800,7 +879,7 @@ static void do_cls(void) {
 	reg_g2("x", KX, &HX, LX); reg_g2("y", KY, &HY, LY);
 	comp_save();
 	for (i = 3; i < vh_ntok; i++) {
-		fresh(); apply_mut(vh_tok[i], NULL);
+		fresh(); apply_mut(vh_tok[i], cls_hook);
 		ret = -1; vh_code();
 		VH_TRY(err, ret = cp_cls_ver(SA, SB, SC, msg, len, KX, KY));
 		vh_begin("cls_ver"); pc_hdr();
@@ -829,7 +908,7 @@ static void do_cli(void) {
 	reg_g2("x", KX, &HX, LX); reg_g2("y", KY, &HY, LY); reg_g2("z", KZ[0], &HZ[0], LZ[0]);
 	comp_save();
 	for (i = 3; i < vh_ntok; i++) {
-		fresh(); apply_mut(vh_tok[i], NULL);
+		fresh(); apply_mut(vh_tok[i], cli_hook);
 		ret = -1; vh_code();
 		VH_TRY(err, ret = cp_cli_ver(SA, SAA[0], SB, SBB[0], SC, msg, len, RB, KX, KY, KZ[0]));
 		vh_begin("cli_ver"); pc_hdr();
@@ -868,7 +947,7 @@ static void do_clb(void) {
 	}
 	comp_save();
 	for (i = (int)(3 + l); i < vh_ntok; i++) {
-		blk_fresh(); apply_mut(vh_tok[i], blk_hook);
+		blk_fresh(); apply_mut(vh_tok[i], clb_hook);
 		for (j = 0; j < l; j++) { ms[j] = bmsg[j]; ls[j] = blen[j]; }
 		ret = -1; vh_code();
 		VH_TRY(err, ret = cp_clb_ver(SA, (const g1_t *)SAA, SB, (const g1_t *)SBB, SC, ms, ls, KX, KY, (const g2_t *)KZ, l));
@@ -1355,7 +1434,7 @@ int main(int argc, char **argv) {
 #define G2(x) do { g2_null(x); g2_new(x); } while (0)
 	BN(N); BN(T); BN(U); BN(V); BN(W); BN(H); BN(X); BN(X2); BN(TD); BN(MSK); BN(MSK2); BN(USK); BN(USK2); BN(Z); BN(HH);
 	BN(KR); BN(KS); BN(KT); BN(KU); BN(LX); BN(LY); BN(LG); BN(RB);
-	EP(G); EP(Y2); EP(PP); EP(FPK); EP(MPK); EP(MPK2); EP(UPK); EP(UPK2); EP(RR); EP(G1G); EP(SA); EP(SB); EP(SC);
+	EP(FP1); EP(G); EP(Y2); EP(PP); EP(FPK); EP(MPK); EP(MPK2); EP(UPK); EP(UPK2); EP(RR); EP(G1G); EP(SA); EP(SB); EP(SC);
 	G2(G2G); G2(TT); G2(KX); G2(KY); G2(KG);
 	for (i = 0; i < 2; i++) {
 		BN(C[i]); BN(R[i]); EP(Y[i]); EP(GG[i]); BN(PR[i]); BN(PS_[i]); BN(PM[i]); EP(PB[i]); G2(PX[i]); G2(PY[i]);
